@@ -183,6 +183,11 @@ def run_case(case_seed, exports, fails, stats):
     cur = make_state("x")
     if cur is None:
         return
+    if rng.random() < 0.25:
+        # real tensors with a complex prefactor
+        cz = complex(round(rng.uniform(-1, 1), 3), round(rng.uniform(0.2, 1), 3))
+        cur.coeff = cz
+        lines.append("x.coeff = %r" % (cz,))
     curq = list(q)
 
     def check(mp, name, what, expect_q):
